@@ -4,7 +4,7 @@ SRC="$1"; ID="$2"; NAME="$3"
 W=/var/tmp/seedchk-$ID-$NAME
 git -C /repo worktree add -q --detach $W HEAD || exit 2
 run_demo() { (cd $W && PYTHONPATH=$W/src timeout 120 /venv/bin/python "$SRC/demo.py" >/dev/null 2>&1; echo $?); }
-run_tests() { (cd $W && PYTHONPATH=$W/src /venv/bin/python -m pytest -q -p no:cacheprovider --timeout=900 2>&1 | tail -1); }
+run_tests() { (cd $W && PYTHONPATH=$W/src flock /var/tmp/mutsweep.pytest.lock /venv/bin/python -m pytest -q -p no:cacheprovider --timeout=900 2>&1 | tail -1); }
 clean_demo=$(run_demo)
 if ! git -C $W apply --check "$SRC/patch.diff" 2>/dev/null; then echo "$ID-$NAME: patch does not apply"; git -C /repo worktree remove --force $W; exit 1; fi
 git -C $W apply "$SRC/patch.diff"
